@@ -176,5 +176,18 @@ def run(repo, scratch, krows, seed, tier):
                         cexs[rid] = dict(harness=pr['full'], playback_test=tests[0], failed_checks=pr['failed_checks'][:6])
                 except subprocess.TimeoutExpired:
                     pass
+    prune_target(target)
     return dict(rows=rows, failed=failed, per=per, n=len(rows), n_ok=n_ok, wall=time.time() - t0, cmd=' && '.join(cmds), cex=cexs,
                 overlay=applied)
+
+
+def prune_target(target, keep=4):
+    """Every run builds the crate at a scratch path of its own, and cargo keys the crate's artefacts by that path: the shared target directory
+    would grow by ~100 MB per run.  Keep the newest few artefact directories of the crate itself (dependencies are shared and stay)."""
+    for root, dirs, files in os.walk(target):
+        if os.path.basename(root) == 'gc-arena' and os.path.basename(os.path.dirname(root)) == 'build':
+            ds = sorted((os.path.join(root, d) for d in dirs), key=lambda d: os.path.getmtime(d), reverse=True)
+            for d in ds[keep:]:
+                if time.time() - os.path.getmtime(d) > 1800:          # never under a run that may still be using it
+                    shutil.rmtree(d, ignore_errors=True)
+            dirs[:] = []
